@@ -2,5 +2,6 @@ SPECIFICATION Spec
 CONSTANTS
   Sizes <- McSizes
   PartialOk = FALSE
-INVARIANTS ReturnedOk ErrorClass
+  Swallow = "never"
+INVARIANTS ReturnedOk ErrorSurfaces ErrorClass
 CHECK_DEADLOCK FALSE
